@@ -2,8 +2,13 @@
    file into its work directory and compiles it there, before the generated HandlerGen.v and the
    assembled HandlerTie.v; it is NOT part of _CoqProject).
 
-   1. store_c        the one definition the generated code needs that the model does not have
-   2. tie_auto       the generic proof of "generated definition = model function"
+   1. store_c ...    the vocabulary of the generated code that the model does not have: stores
+                     into the two buffers and into the ring, u8 (C conversion to uint8_t) with the
+                     sweep lemmas, the command groups as the C loops see them (grp, enum_groups),
+                     the C-shaped views of model functions with out-parameters / a ring walk
+                     (pop_c, scan_ring, buffered_c), the shapes of the public functions
+   2. tie_auto       the generic proof of "generated definition = model function"; lane_core (the
+                     exhaustive sweep for the bit arithmetic); tie_loop / tie_wloop (loops)
    3. state_eqb ...  decidable comparison of states, and the deterministic families of concrete
                      states on which a FAILED tie is evaluated to find a witness (diagnosis only:
                      nothing in section 3 is used by a tie theorem)
@@ -22,6 +27,201 @@ Local Open Scope nat_scope.
    envelope), as the model does for its own out-of-range accesses. *)
 Definition store_c (i : nat) (v : N) (s : state) : state :=
   if i <? asz s then set_cbuf (upd (cbuf s) i v) s else set_fault_flag s.
+
+(* get_unsolicited_buf(self)[i] = v : the same for the buffer of the event machine *)
+Definition store_u (i : nat) (v : N) (s : state) : state :=
+  if i <? usz s then set_ubuf (upd (ubuf s) i v) s else set_fault_flag s.
+
+(* Printing.  print_string_to_buf answers 0 / -1: print_string_c is Fsm.print_string seen that way.
+   self->var (self->unsolicited_fsm.var) is, in the model, the index of a variable of the command
+   the machine is processing: var_of is the descriptor get_var_by_fsm returns. *)
+Definition print_string_c (f : fsm) (s : state) (t : list N) : state * Z :=
+  let (s', ok) := print_string f s t in (s', if ok then 0%Z else (-1)%Z).
+Definition var_of (D : desc) (f : fsm) (s : state) : option var :=
+  match cmd_of D f s with Some c => nth_error (c_vars c) (g_var f s) | None => None end.
+(* The model prints several strings through ONE cursor (Codec.print_pieces); C calls
+   print_string_to_buf once per string, each call re-reading the position from the object.
+   print_strings_cons / print_strings_nil (facts about the model only): it is the same thing. *)
+Lemma cur_store_list_nofault : forall l c i, cu_fault c = false ->
+  i + Datatypes.length l <= Datatypes.length (cu_buf c) ->
+  cu_fault (cur_store_list c i l) = false /\
+  Datatypes.length (cu_buf (cur_store_list c i l)) = Datatypes.length (cu_buf c).
+Proof.
+  induction l as [|x l IH]; intros c i Hf Hl; cbn [cur_store_list Datatypes.length] in *.
+  - split; [exact Hf | reflexivity].
+  - assert (Hlen : forall (A : Type) (l : list A) j v, Datatypes.length (upd l j v) = Datatypes.length l).
+    { intros A l0. induction l0 as [|a l0 IHl]; intros [|j] v; cbn; try reflexivity. rewrite IHl. reflexivity. }
+    unfold cur_store at 1 2. destruct (i <? Datatypes.length (cu_buf c)) eqn:E.
+    + destruct (IH (mkCur (upd (cu_buf c) i x) (cu_pos c) (cu_fault c)) (S i)) as [H1 H2].
+      * exact Hf.
+      * cbn [cu_buf]. rewrite Hlen. lia.
+      * split; [exact H1|]. rewrite H2. cbn [cu_buf]. apply Hlen.
+    + apply Nat.ltb_ge in E. lia.
+Qed.
+Lemma print_nstring_ok_nofault : forall c t c', cu_fault c = false ->
+  print_nstring c t = (c', true) -> cu_fault c' = false.
+Proof.
+  intros c t c' Hf. unfold print_nstring.
+  destruct (Datatypes.length (cu_buf c) <? cu_pos c) eqn:E1; [discriminate|].
+  destruct (Datatypes.length (cu_buf c) - cu_pos c <=? Datatypes.length t) eqn:E2; [discriminate|].
+  apply Nat.ltb_ge in E1. apply Nat.leb_gt in E2. intros H. injection H as <-.
+  destruct (cur_store_list_nofault t c (cu_pos c) Hf) as [H1 H2]; [lia|].
+  unfold cur_store, cur_set_pos. cbn [cu_buf cu_pos cu_fault]. rewrite H2.
+  destruct (cu_pos c + Datatypes.length t <? Datatypes.length (cu_buf c)) eqn:E3.
+  - cbn [cu_fault]. exact H1.
+  - apply Nat.ltb_ge in E3. lia.
+Qed.
+Lemma get_put_cur : forall f c s, cu_fault c = false -> get_cur f (put_cur f c s) = c.
+Proof. intros f [b p fl] s H. cbn in H. subst fl. destruct f; reflexivity. Qed.
+Lemma put_put_cur : forall f c c' s, cu_fault c = false ->
+  put_cur f c' (put_cur f c s) = put_cur f c' s.
+Proof. intros f [b p fl] [b' p' fl'] s H. cbn in H. subst fl. destruct f, fl'; reflexivity. Qed.
+Lemma put_get_cur : forall f s, put_cur f (get_cur f s) s = s.
+Proof. intros f [[] [] ? ? ? ? ? ? ? ? ?]. destruct f; reflexivity. Qed.
+Lemma print_strings_nil : forall f s, print_strings f s [] = (s, true).
+Proof. intros. unfold print_strings. cbn [print_pieces]. rewrite put_get_cur. reflexivity. Qed.
+Lemma print_strings_cons : forall f s p r,
+  print_strings f s (p :: r) =
+  let (s1, ok) := print_string f s p in if ok then print_strings f s1 r else (s1, false).
+Proof.
+  intros f s p r. unfold print_strings, print_string. cbn [print_pieces].
+  destruct (print_nstring (get_cur f s) p) as [c1 ok] eqn:E. destruct ok; [|reflexivity].
+  assert (H1 : cu_fault c1 = false) by (eapply print_nstring_ok_nofault; [|exact E]; reflexivity).
+  rewrite get_put_cur by exact H1.
+  destruct (print_pieces c1 r) as [c2 ok2]. rewrite put_put_cur by exact H1. reflexivity.
+Qed.
+
+(* The queue of unsolicited events.  `item = &ring[i]; item->cmd = v; item->type = w;` are two
+   stores into one entry of the ring: ring_store (a store outside the ring sets the fault flag). *)
+Definition ring_store (i : nat) (f : nat * ctype -> nat * ctype) (s : state) : state :=
+  match nth_error (u_ring (u s)) i with
+  | Some it => setu_ring (upd (u_ring (u s)) i (f it)) s
+  | None => set_fault_flag s
+  end.
+(* what a status-returning function answers after a fault (the flag is set: the state is outside
+   the verified envelope, the value is irrelevant; it only has to be fixed) *)
+Definition fault_status : Z := ST_ERROR.
+(* Fsm.pop_unsolicited_cmd seen as the C function: status and the two OUT-parameters *cmd, *type
+   (None = not written).  This is the mapping between the C signature and the model's. *)
+Definition pop_c (D : desc) (s : state) : state * Z * option (option nat) * option ctype :=
+  if ring_empty s then (s, ST_BUFFER_EMPTY, None, None)
+  else match pop_unsolicited_cmd D s with
+       | (s', Some (ci, t)) => (s', ST_OK, Some (Some ci), Some t)
+       | (s', None) => (s', fault_status, None, None)
+       end.
+
+(* cat_is_unsolicited_event_buffered walks over the live entries of the ring as Fsm.ring_items_go
+   does, but stops at the first match and reads the ring through a C array: scan_ring is that
+   walk (None = an index outside the ring, a fault; ring_items_go just stops there).
+   scan_ring_sound / buffered_c_is_model: whenever the walk does not fault it answers what
+   Fsm.is_event_buffered answers. *)
+Fixpoint scan_ring (D : desc) (ring : list (nat * ctype)) (ci : nat) (t : ctype) (idx num : nat)
+  : option bool :=
+  match num with
+  | O => Some false
+  | S n => match nth_error ring idx with
+           | None => None
+           | Some it => if ev_match ci t it then Some true
+                        else scan_ring D ring ci t (if cap D <=? S idx then 0 else S idx) n
+           end
+  end.
+Lemma scan_ring_sound : forall D ring ci t n idx b,
+  scan_ring D ring ci t idx n = Some b -> b = existsb (ev_match ci t) (ring_items_go D ring idx n).
+Proof.
+  induction n as [|n IH]; cbn [scan_ring ring_items_go existsb]; intros idx b H.
+  - injection H as <-. reflexivity.
+  - destruct (nth_error ring idx) as [it|]; [|discriminate]. cbn [existsb].
+    destruct (ev_match ci t it); [injection H as <-; reflexivity|]. cbn [orb]. apply IH. exact H.
+Qed.
+Definition buffered_c (D : desc) (s : state) (ci : nat) (t : ctype) : option Z :=
+  let cur := match u_cmd (u s) with
+             | Some c => ev_match ci t (c, u_type (u s))
+             | None => false
+             end in
+  if cur then Some ST_BUSY
+  else match scan_ring D (u_ring (u s)) ci t (u_head (u s)) (u_count (u s)) with
+       | Some true => Some ST_BUSY
+       | Some false => Some ST_OK
+       | None => None
+       end.
+Lemma buffered_c_is_model : forall D s ci t r,
+  buffered_c D s ci t = Some r -> r = is_event_buffered D s ci t.
+Proof.
+  intros D s ci t r. unfold buffered_c, is_event_buffered, ring_items.
+  destruct (match u_cmd (u s) with Some c => ev_match ci t (c, u_type (u s)) | None => false end).
+  - cbn. congruence.
+  - cbn [orb]. destruct (scan_ring D (u_ring (u s)) ci t (u_head (u s)) (u_count (u s))) as [b|] eqn:E;
+      [|discriminate].
+    apply scan_ring_sound in E. rewrite <- E. destruct b; congruence.
+Qed.
+
+(* The command groups of the descriptor, as the loops of cat.c see them: element number gi of
+   self->desc->cmd_group, the number of commands in the groups before it (the model numbers the
+   commands globally: Defs.cmds, Defs.dis_cmd), and its commands. *)
+Definition grp : Type := (nat * nat * list cmd)%type.
+Definition grp_index (g : grp) : nat := fst (fst g).
+Definition grp_off (g : grp) : nat := snd (fst g).
+Definition grp_cmds (g : grp) : list cmd := snd g.
+Fixpoint enum_groups (gs : list (list cmd)) (gi off : nat) : list grp :=
+  match gs with
+  | [] => []
+  | g :: r => (gi, off, g) :: enum_groups r (S gi) (off + Datatypes.length g)
+  end.
+
+(* C integer arithmetic on uint8_t.  The translator lifts a uint8_t VALUE to N and the `int` it
+   is promoted to (C11 6.3.1.1) to Z, with the mathematical operations of Z (Z.shiftl, Z.shiftr,
+   Z.land, Z.lor, Z.lnot); it checks on intervals that no shift is undefined and that every
+   intermediate value fits an int, so that these ARE the C operations.  The conversion back to
+   uint8_t (assignment to a uint8_t object) is u8: reduction modulo 256 (C11 6.3.1.3p2).  Reading
+   a `char` of the working buffer as uint8_t is u8 (Z.of_N b): the byte itself. *)
+Definition u8 (x : Z) : N := Z.to_N (x mod 256).
+Definition bytes : list N := map N.of_nat (seq 0 256).
+
+Lemma u8_lt : forall x, (u8 x < 256)%N.
+Proof.
+  intros x. unfold u8. pose proof (Z.mod_pos_bound x 256 eq_refl) as H.
+  apply (proj2 (N2Z.inj_lt _ _)). rewrite Z2N.id by lia. change (Z.of_N 256) with 256%Z. lia.
+Qed.
+Lemma u8_of_N : forall b, u8 (Z.of_N b) = N.land b 255.
+Proof.
+  intros b. unfold u8. change 256%Z with (Z.of_N 256). rewrite <- N2Z.inj_mod, N2Z.id.
+  change 255%N with (N.ones 8). rewrite N.land_ones. reflexivity.
+Qed.
+(* the model's lane functions only look at the low 8 bits of the byte they are given *)
+Lemma lane_get_u8 : forall b j, j < 4 -> lane_get (u8 (Z.of_N b)) j = lane_get b j.
+Proof.
+  intros b j Hj. rewrite u8_of_N. unfold lane_get. rewrite N.shiftr_land, <- N.land_assoc.
+  destruct j as [|[|[|[|j]]]]; try lia; reflexivity.
+Qed.
+Lemma lane_set_u8 : forall b j v, j < 4 -> lane_set (u8 (Z.of_N b)) j v = lane_set b j v.
+Proof.
+  intros b j v Hj. rewrite u8_of_N. unfold lane_set. rewrite <- N.land_assoc.
+  destruct j as [|[|[|[|j]]]]; try lia; reflexivity.
+Qed.
+Lemma in_bytes : forall b, (b < 256)%N -> In b bytes.
+Proof.
+  intros b H. unfold bytes. apply in_map_iff. exists (N.to_nat b). split; [apply N2Nat.id|].
+  apply in_seq. lia.
+Qed.
+(* exhaustive sweeps: byte 0..255 x lane 0..3 [x uint8_t value 0..255] *)
+Lemma sweep_bj (f g : N -> nat -> N) :
+  forallb (fun b => forallb (fun j => (f b j =? g b j)%N) [0; 1; 2; 3]) bytes = true ->
+  forall b j, (b < 256)%N -> j < 4 -> f b j = g b j.
+Proof.
+  intros H b j Hb Hj. rewrite forallb_forall in H. specialize (H b (in_bytes b Hb)).
+  rewrite forallb_forall in H. apply N.eqb_eq, H.
+  destruct j as [|[|[|[|j]]]]; try lia; cbn; auto.
+Qed.
+Lemma sweep_bjv (f g : N -> nat -> N -> N) :
+  forallb (fun b => forallb (fun j => forallb (fun v => (f b j v =? g b j v)%N) bytes)
+                            [0; 1; 2; 3]) bytes = true ->
+  forall b j v, (b < 256)%N -> j < 4 -> (v < 256)%N -> f b j v = g b j v.
+Proof.
+  intros H b j v Hb Hj Hv. rewrite forallb_forall in H. specialize (H b (in_bytes b Hb)).
+  rewrite forallb_forall in H.
+  assert (Hin : In j [0; 1; 2; 3]) by (destruct j as [|[|[|[|j]]]]; try lia; cbn; auto).
+  specialize (H j Hin). rewrite forallb_forall in H. apply N.eqb_eq, H, in_bytes, Hv.
+Qed.
 
 (* The dispatching switches of cat_service / unsolicited_events_service are generated as TABLES
    state -> dispatch.  hname = the C functions a dispatching arm may call (one constructor per
@@ -42,10 +242,39 @@ Inductive dispatch :=
   | DAssign (h : hname)      (* s = h(self);                                                *)
   | DBusy (h : hname)        (* h(self); s = CAT_STATUS_BUSY;                               *)
   | DIfEvents (h : hname)    (* if (!is_unsolicited_buffer_empty(self)) { h(self); s = BUSY } *)
+  | DCallOnly (h : hname)    (* h(self);   (its status, if any, is dropped: s unchanged)    *)
   | DUnknown                 (* s = CAT_STATUS_ERROR_UNKNOWN_STATE;                         *)
   | DNothing.                (* s unchanged                                                 *)
 Scheme Equality for hname.
 Scheme Equality for dispatch.
+
+(* The public functions that take the mutex are generated as a SHAPE (+ their body, a state
+   function).  Statements are identified by their line in cat.c.
+     <declarations, asserts>  as_pre  if (lock fails) return as_lock;  BODY
+     if (unlock fails) return as_unlock;  as_post  return <expression>; *)
+Record api_shape := mkApiShape {
+  as_pre : list nat;           (* statements about *self before the lock test              *)
+  as_lock : Z;                 (* status returned when lock() fails                        *)
+  as_unlock : Z;               (* status returned when unlock() fails                      *)
+  as_inner_returns : nat;      (* `return`s between lock and unlock (they would skip unlock) *)
+  as_extra_mutex : nat;        (* uses of self->mutex outside the two tests                *)
+  as_post : list nat;          (* statements about *self after the unlock test             *)
+  as_return_pure : bool }.     (* the final return does not mention self                   *)
+(* the shape of Fsm.bracket *)
+Definition expected_api_shape : api_shape :=
+  mkApiShape [] ST_MUTEX_LOCK ST_MUTEX_UNLOCK 0 0 [] true.
+(* cat_service: what stands between lock and unlock, in order *)
+Inductive body_item :=
+  | BI_events_service          (* <local> = unsolicited_events_service(self);                 *)
+  | BI_dispatch                (* switch (self->state) { .. }   (tied as g_cat_service_dispatch) *)
+  | BI_merge.                  (* if (<that local> ..) s = ..;  (tied as g_cat_service_merge)    *)
+Record service_shape := mkServiceShape { ss_api : api_shape; ss_body : list body_item }.
+(* the merge of the two statuses at the end of Fsm.service_body (see cat_service_is_bracket in
+   HandlerTie.v.in): st0 = status of the command machine, us = status of the event machine *)
+Definition service_merge (st0 us : Z) (s : state) : Z :=
+  if negb (us =? ST_OK)%Z || negb (ustate_beq (u_state (u s)) US_IDLE) then ST_BUSY else st0.
+Definition expected_service_shape : service_shape :=
+  mkServiceShape expected_api_shape [BI_events_service; BI_dispatch; BI_merge].
 
 (* ====================================================================================== *)
 (* 2. tie_auto                                                                            *)
@@ -62,6 +291,10 @@ Scheme Equality for dispatch.
    whose hypotheses are contradictory (the two sides tested related conditions in a different
    order) is closed by lia/congruence.  Every split removes all occurrences of its scrutinee, and
    the depth is bounded by explicit fuel, so the tactic always terminates. *)
+
+(* rebound (::=) in HandlerTie.v.in before a theorem whose generated function calls other generated
+   definitions that are tied separately (constant tables): rewrite with their ties *)
+Ltac tie_rewrite_hook := idtac.
 
 Ltac tie_norm :=
   cbv beta iota zeta;
@@ -84,13 +317,15 @@ Ltac tie_norm :=
        setu_wafter setu_ring setu_tail setu_head setu_count
        fsm_beq ctype_beq cstate_beq ustate_beq wstate_beq vaccess_beq
        N.eqb Z.eqb Pos.eqb
-       andb orb negb fst snd Datatypes.length].
+       andb orb negb fst snd Datatypes.length app];
+  rewrite ?print_strings_cons, ?print_strings_nil;
+  tie_rewrite_hook.
 
 (* named constants and light model helpers (setter chains, at most one match): unfolded so that
    a field read AFTER a helper call can be evaluated *)
 Ltac tie_unfold_light :=
   cbv delta [CMD_NOT_MATCH CMD_PARTIAL CMD_FULL
-             ch_NUL ch_LF ch_CR ch_QM ch_EQ ch_A ch_T ch_COMMA
+             ch_NUL ch_LF ch_CR ch_QM ch_EQ ch_A ch_T ch_COMMA ch_LT ch_GT ch_LBR ch_RBR ch_COLON
              ST_OK ST_BUSY ST_HOLD ST_ERROR ST_MUTEX_UNLOCK ST_MUTEX_LOCK ST_UNKNOWN_STATE
              ST_BUFFER_FULL ST_NOT_HOLD ST_BUFFER_EMPTY
              RC_ERROR RC_DATA_OK RC_DATA_NEXT RC_NEXT RC_OK RC_HOLD RC_HOLD_EXIT_OK
@@ -102,6 +337,9 @@ Ltac tie_unfold_light :=
              unsolicited_process_io_write_wait start_print_cmd_list cmd_list_next_cmd
              start_flush_after_ok start_flush_after set_loop_state cmd_of cmd_at
              ring_empty ring_full txt_ERROR txt_OK
+             cap ring_store fault_status pop_c pop_unsolicited_cmd push_unsolicited_cmd
+             check_unsolicited_buffers service_merge store_u next_format_var
+             print_string_c var_of print_response_test info_pieces
              asz usz g_pos g_buf g_cmd g_var g_index g_bsz setg_pos setg_buf setg_var setg_index].
 
 (* the scrutinee on which the evaluation of t is stuck *)
@@ -162,6 +400,54 @@ Ltac tie_leaf :=
        setu_wafter setu_ring setu_tail setu_head setu_count];
   reflexivity.
 
+(* facts about the partial reads made so far, for the contradictory leaves *)
+Ltac tie_nth_facts :=
+  repeat match goal with
+  | H : nth_error ?l ?n = Some _ |- _ =>
+    lazymatch goal with
+    | _ : n < Datatypes.length l |- _ => fail
+    | _ => assert (n < Datatypes.length l) by (apply nth_error_Some; rewrite H; discriminate)
+    end
+  end.
+
+(* a leaf whose two sides differ only in  <generated bit arithmetic> = lane_get b (i mod 4)  or
+   = lane_set b (i mod 4) v : the byte is replaced by its low 8 bits (lane_get_u8 / lane_set_u8;
+   the generated side starts from u8 (Z.of_N b), the char read as uint8_t), both are generalised
+   to any b < 256 and j < 4 (v < 256 is a hypothesis of the theorem: a uint8_t parameter), and the
+   equation is decided by evaluating both sides on the whole domain (sweep_bj / sweep_bjv) *)
+(* (vm_cast_no_check only defers the evaluation: the kernel re-checks the cast, by VM conversion,
+   when the proof is closed with Qed) *)
+Ltac lane_sweep2 b j :=
+  lazymatch goal with |- ?L = ?R =>
+    let fL := eval pattern b, j in L in
+    let fR := eval pattern b, j in R in
+    lazymatch fL with ?f _ _ => lazymatch fR with ?g _ _ =>
+      apply (sweep_bj f g); [vm_cast_no_check (eq_refl true) | assumption | assumption ] end end end.
+Ltac lane_sweep3 b j v :=
+  lazymatch goal with |- ?L = ?R =>
+    let fL := eval pattern b, j, v in L in
+    let fR := eval pattern b, j, v in R in
+    lazymatch fL with ?f _ _ _ => lazymatch fR with ?g _ _ _ =>
+      apply (sweep_bjv f g); [vm_cast_no_check (eq_refl true) | assumption | assumption | assumption ] end end end.
+Ltac lane_core :=
+  repeat f_equal;
+  lazymatch goal with
+  | |- _ = lane_get ?b (?i mod 4) =>
+    rewrite <- (lane_get_u8 b (i mod 4)) by (apply Nat.mod_upper_bound; discriminate);
+    let b' := fresh "b" in let Hb := fresh "Hb" in let j := fresh "j" in let Hj := fresh "Hj" in
+    pose proof (u8_lt (Z.of_N b)) as Hb; revert Hb; generalize (u8 (Z.of_N b)); intros b' Hb;
+    assert (Hj : i mod 4 < 4) by (apply Nat.mod_upper_bound; discriminate);
+    revert Hj; generalize (i mod 4); intros j Hj;
+    lane_sweep2 b' j
+  | |- _ = lane_set ?b (?i mod 4) ?v =>
+    rewrite <- (lane_set_u8 b (i mod 4) v) by (apply Nat.mod_upper_bound; discriminate);
+    let b' := fresh "b" in let Hb := fresh "Hb" in let j := fresh "j" in let Hj := fresh "Hj" in
+    pose proof (u8_lt (Z.of_N b)) as Hb; revert Hb; generalize (u8 (Z.of_N b)); intros b' Hb;
+    assert (Hj : i mod 4 < 4) by (apply Nat.mod_upper_bound; discriminate);
+    revert Hj; generalize (i mod 4); intros j Hj;
+    lane_sweep3 b' j v
+  end.
+
 (* No backtracking: once a scrutinee is chosen, the split is committed (tryif), so a failing
    leaf fails the whole tactic at once. *)
 Ltac tie_go n :=
@@ -170,7 +456,22 @@ Ltac tie_go n :=
   | |- ?L = ?R =>
     tryif (let x := tie_stuck L in idtac) then (let x := tie_stuck L in tie_next n x)
     else tryif (let x := tie_stuck R in idtac) then (let x := tie_stuck R in tie_next n x)
-    else first [ tie_leaf | exfalso; cbn [Datatypes.length] in *; first [lia | congruence] ]
+    else first [ tie_leaf | lane_core
+               | progress (repeat match goal with
+                                  | |- context [S ?n - 1] => replace (S n - 1) with n by lia
+                                  end); tie_leaf
+               | tie_value_split n
+               | exfalso; tie_nth_facts; cbn [Datatypes.length] in *; first [lia | congruence] ]
+  end
+(* no `if`/`match` is stuck, but the two sides still differ: a comparison that is part of a VALUE
+   (e.g. the returned bool) is split *)
+with tie_value_split n :=
+  lazymatch goal with
+  | |- context [Nat.eqb ?a ?b] => tie_next n (Nat.eqb a b)
+  | |- context [Nat.leb ?a ?b] => tie_next n (Nat.leb a b)
+  | |- context [Nat.ltb ?a ?b] => tie_next n (Nat.ltb a b)
+  | |- context [Z.eqb ?a ?b] => tie_next n (Z.eqb a b)
+  | |- context [N.eqb ?a ?b] => tie_next n (N.eqb a b)
   end
 with tie_next n x :=
   lazymatch n with
@@ -190,6 +491,62 @@ Ltac tie_auto :=
   tie_unfold_gen;
   tie_unfold_light;
   tie_go 60.
+
+(* ---- tie_loop: a `for` loop of cat.c translated into a structural recursion g_f_loopK over the
+        model list (see for_loop in tools/handler_translate.py).  Goal (stated by hand in
+        HandlerTie.v.in, generalised over the variables the loop carries):
+            forall <carried>, <invariant> -> g_f_loopK D .. s l <carried> = <model recursion on l>
+        Method: induction on l; one unfolding of both recursions; split on every comparison of
+        naturals; rewrite with the induction hypothesis (side conditions by lia); normalise
+        a - (b + c) and a + (b - a); then reflexivity / lia / case analysis of the remaining
+        boolean tests. ---- *)
+Ltac loop_step_cbn :=
+  lazymatch goal with |- ?L = _ =>
+    let h := tie_head L in
+    cbn [h enum_groups cmd_by_index group_of_index existsb grp_cmds grp_off grp_index fst snd]
+  end.
+Ltac loop_split :=
+  repeat match goal with
+  | |- context [Nat.leb ?a ?b] => destruct (Nat.leb_spec0 a b)
+  | |- context [Nat.ltb ?a ?b] => destruct (Nat.ltb_spec0 a b)
+  | |- context [Nat.eqb ?a ?b] => destruct (Nat.eqb_spec a b)
+  end.
+Ltac loop_arith :=
+  rewrite ?Nat.sub_add_distr;
+  repeat match goal with
+  | |- context [?a + (?b - ?a)] => replace (a + (b - a)) with b by lia
+  end.
+Ltac loop_ifs :=
+  repeat match goal with
+  | |- context [if ?c then _ else _] => destruct c eqn:?
+  end.
+Ltac loop_leaf IH :=
+  try (rewrite IH by lia);
+  loop_arith;
+  first [ reflexivity | exfalso; lia | f_equal; lia
+        | loop_ifs; first [ reflexivity | congruence | exfalso; lia ] ].
+Ltac tie_loop l :=
+  let x := fresh "x" in let IH := fresh "IH" in
+  induction l as [|x l IH]; intros;
+  [ cbv beta iota zeta delta -[Nat.sub Nat.add]; try reflexivity; loop_leaf IH
+  | loop_step_cbn; tie_unfold_gen; cbv beta zeta; loop_split; loop_leaf IH ].
+
+(* ---- tie_wloop: a countdown loop `while ((n > 0) && ..) { .. --n; .. }` translated into a
+        structural recursion g_f_loopK on n (see while_loop in tools/handler_translate.py).  Goal
+        (stated by hand, generalised over the carried variables):
+            forall <carried>, g_f_loopK D .. s n <carried> = <model recursion on n>
+        Method: induction on n; one unfolding of both recursions; the recursive calls are rewritten
+        with the induction hypothesis; what remains is loop-free: tie_go. ---- *)
+Ltac wloop_step_cbn :=
+  lazymatch goal with |- ?L = _ =>
+    let h := tie_head L in cbn [h scan_ring]
+  end.
+Ltac tie_wloop n :=
+  let IH := fresh "IH" in
+  induction n as [|n IH]; intros;
+  [ wloop_step_cbn; tie_unfold_gen; tie_unfold_light; cbv delta [ev_match]; tie_go 40
+  | wloop_step_cbn; tie_unfold_gen; cbv beta zeta; rewrite ?IH; tie_unfold_light;
+    cbv delta [ev_match]; tie_go 60 ].
 
 (* ====================================================================================== *)
 (* 3. Diagnosis of a failed tie: concrete states                                          *)
@@ -274,6 +631,16 @@ Definition first_diff {T R} (eqb : R -> R -> bool) (fields : R -> R -> list stri
   | Some x => Some (mkWitness x (gen x) (model x) (fields (gen x) (model x)))
   | None => None
   end.
+(* two checks in a row (a shape, then a body): the first difference of either *)
+Definition first_diff2 {T1 R1 T2 R2} (a : option (witness T1 R1)) (b : option (witness T2 R2))
+  : option (witness (option T1 * option T2) (option R1 * option R2)) :=
+  match a, b with
+  | Some w, _ => Some (mkWitness (Some (w_input _ _ w), None) (Some (w_generated _ _ w), None)
+                                 (Some (w_model _ _ w), None) (w_differ_in _ _ w))
+  | None, Some w => Some (mkWitness (None, Some (w_input _ _ w)) (None, Some (w_generated _ _ w))
+                                    (None, Some (w_model _ _ w)) (w_differ_in _ _ w))
+  | None, None => None
+  end.
 Definition diff_fst {B} (x y : state * B) : list string :=
   diff_state (fst x) (fst y) ++
   (if state_eqb (fst x) (fst y) then ["returned value"%string] else []).
@@ -292,7 +659,17 @@ Definition tcmd2 : cmd := mkCmd [43%N; 88%N] None true false false false [tvar R
 Definition tcmd3 : cmd := mkCmd [69%N] None false false false false [] false false false.
 Definition tdesc0 : desc := mkDesc [[tcmd0; tcmd1]; [tcmd2]] [tcmd3] 8 None 0%N 2 false.
 Definition tdesc1 : desc := mkDesc [] [] 4 (Some 4) 0%N 1 false.
-Definition tD (i : nat) : desc := match i with O => tdesc0 | _ => tdesc1 end.
+(* index 2: as index 0 with a queue of capacity 3 (not a power of two) *)
+Definition tdesc2 : desc := mkDesc [[tcmd0; tcmd1]; [tcmd2]] [tcmd3] 8 None 0%N 3 false.
+(* index 3: one command "V" with a description, a test handler and three variables (one named,
+   one of an unsupported size) *)
+Definition tcmd4 : cmd :=
+  mkCmd [86%N] (Some [100%N; 101%N]) false false false true
+        [mkVar (Some [120%N]) VInt 2 RW false false 0; mkVar None VHex 3 RO false false 0;
+         mkVar None VBufStr 4 WO false false 0] false false false.
+Definition tdesc3 : desc := mkDesc [[tcmd4]] [] 64 None 0%N 2 false.
+Definition tD (i : nat) : desc :=
+  match i with O => tdesc0 | 1 => tdesc1 | 2 => tdesc2 | _ => tdesc3 end.
 
 (* ---- secondary patterns: five settings of the fields that rarely interact ---- *)
 Definition base_state : state :=
@@ -354,7 +731,6 @@ Definition states_small : list state :=
   |> vary [0; 1; 2] setk_length
   |> vary [[]; [7%N]; [1%N; 2%N; 3%N]] set_cbuf.
 
-Definition bytes : list N := map N.of_nat (seq 0 256).
 Definition all_cstates : list cstate :=
   [CS_ERROR; CS_IDLE; CS_PARSE_PREFIX; CS_PARSE_COMMAND_CHAR; CS_UPDATE_COMMAND_STATE;
    CS_WAIT_READ_ACK; CS_SEARCH_COMMAND; CS_COMMAND_FOUND; CS_COMMAND_NOT_FOUND;
@@ -371,3 +747,83 @@ Definition fam_ds : list (nat * state) := list_prod [0; 1] states_big.
 Definition fam_ds_small : list (nat * state) := list_prod [0; 1] states_small.
 Definition fam_cds : list (N * (nat * state)) := list_prod bytes fam_ds_small.
 Definition with_arg {A} (vals : list A) : list (A * (nat * state)) := list_prod vals fam_ds_small.
+
+(* ---- the 2-bit lanes: every byte value in the two bytes of the bitmap, with and without a
+        disabled command; command indices 0..7 address these two bytes, 8 is outside ---- *)
+Definition states_lane : list state :=
+  [base_state; pattern 1 base_state]
+  |> vary (map (fun b => [b; N.lxor b 255]) bytes) set_cbuf.
+Definition fam_lane : list (nat * (nat * state)) :=
+  list_prod [0; 1; 2; 3; 4; 5; 6; 7; 8] (list_prod [0; 1] states_lane).
+Definition fam_lane_v : list (N * (nat * (nat * state))) :=
+  list_prod [0%N; 1%N; 2%N; 3%N; 255%N] fam_lane.
+
+(* ---- the loops over the descriptor tables ---- *)
+Definition cmd_eqb (x y : cmd) : bool :=        (* enough to tell the test commands apart *)
+  list_eqb N.eqb (c_name x) (c_name y) && Bool.eqb (c_hrun x) (c_hrun y)
+  && (Datatypes.length (c_vars x) =? Datatypes.length (c_vars y)).
+Definition fam_index : list (nat * (nat * state)) := with_arg [0; 1; 2; 3; 4].
+Definition fam_cmd_access : list ((cmd * vaccess) * (nat * state)) :=
+  list_prod (list_prod [tcmd0; tcmd1; tcmd2; tcmd3] [RW; RO; WO]) [(0, base_state)].
+
+(* ---- the queue: every position of head and tail in a ring of three entries, 0..3 items ---- *)
+Definition states_ring : list state :=
+  [base_state; pattern 1 base_state]
+  |> vary [[(1, T_READ); (2, T_TEST); (0, T_READ)]; [(3, T_TEST)]] setu_ring
+  |> vary [0; 1; 2] setu_head
+  |> vary [0; 1; 2] setu_tail
+  |> vary [0; 1; 2; 3] setu_count.
+Definition fam_ring : list (nat * state) := list_prod [2; 0; 1] states_ring.
+Definition fam_ring_push : list ((nat * ctype) * (nat * state)) :=
+  list_prod (list_prod [0; 3] [T_READ; T_TEST]) fam_ring.
+Definition out_eqb (x y : state * Z * option (option nat) * option ctype) : bool :=
+  state_Z_eqb (fst (fst x)) (fst (fst y))
+  && opt_eqb (opt_eqb Nat.eqb) (snd (fst x)) (snd (fst y))
+  && opt_eqb ctype_beq (snd x) (snd y).
+Definition diff_out (x y : state * Z * option (option nat) * option ctype) : list string :=
+  diff_state (fst (fst (fst x))) (fst (fst (fst y))) ++
+  (if state_eqb (fst (fst (fst x))) (fst (fst (fst y))) then ["returned value / out-parameters"%string] else []).
+
+(* ---- shapes ---- *)
+Definition api_shape_eqb (x y : api_shape) : bool :=
+  list_eqb Nat.eqb (as_pre x) (as_pre y) && Z.eqb (as_lock x) (as_lock y)
+  && Z.eqb (as_unlock x) (as_unlock y) && (as_inner_returns x =? as_inner_returns y)
+  && (as_extra_mutex x =? as_extra_mutex y) && list_eqb Nat.eqb (as_post x) (as_post y)
+  && Bool.eqb (as_return_pure x) (as_return_pure y).
+Definition body_item_eqb (x y : body_item) : bool :=
+  match x, y with
+  | BI_events_service, BI_events_service | BI_dispatch, BI_dispatch | BI_merge, BI_merge => true
+  | _, _ => false
+  end.
+Definition service_shape_eqb (x y : service_shape) : bool :=
+  api_shape_eqb (ss_api x) (ss_api y) && list_eqb body_item_eqb (ss_body x) (ss_body y).
+Definition diff_api (x y : api_shape) : list string :=
+  fld (list_eqb Nat.eqb (as_pre x) (as_pre y)) "statements before the lock (lines)" ++
+  fld (Z.eqb (as_lock x) (as_lock y)) "status when lock fails" ++
+  fld (Z.eqb (as_unlock x) (as_unlock y)) "status when unlock fails" ++
+  fld (as_inner_returns x =? as_inner_returns y) "return between lock and unlock" ++
+  fld (as_extra_mutex x =? as_extra_mutex y) "other uses of self->mutex" ++
+  fld (list_eqb Nat.eqb (as_post x) (as_post y)) "statements after the unlock (lines)" ++
+  fld (Bool.eqb (as_return_pure x) (as_return_pure y)) "final return mentions self".
+Definition diff_service (x y : service_shape) : list string :=
+  diff_api (ss_api x) (ss_api y) ++
+  fld (list_eqb body_item_eqb (ss_body x) (ss_body y)) "order of the statements between lock and unlock".
+Definition fam_status : list (Z * (nat * state)) := with_arg [0%Z; 1%Z; (-1)%Z; 2%Z].
+Definition fam_trigger : list ((nat * ctype) * (nat * state)) := fam_ring_push.
+Definition fam_merge : list ((Z * Z) * (nat * state)) :=
+  with_arg (list_prod [0%Z; 1%Z; (-1)%Z; (-4)%Z] [0%Z; 1%Z; (-1)%Z]).
+Definition fam_buffered : list ((nat * ctype) * (nat * state)) :=
+  list_prod (list_prod [0; 1; 3] [T_NONE; T_READ; T_TEST]) fam_ring.
+
+(* ---- printing the description of a variable (test descriptor 3); small and large buffers ---- *)
+Definition states_info : list state :=
+  [base_state]
+  |> vary [None; Some 0] setk_cmd
+  |> vary [None; Some 0] setu_cmd
+  |> vary [0; 1; 2; 3] setk_var
+  |> vary [0; 1] setu_var
+  |> vary [0; 3] setk_position
+  |> vary [repeat 0%N 4; repeat 0%N 12; repeat 0%N 32] set_cbuf
+  |> vary [repeat 0%N 3; repeat 0%N 32] set_ubuf.
+Definition fam_info : list (fsm * (nat * state)) :=
+  list_prod [ATCMD; UNSOL] (list_prod [3] states_info).
